@@ -966,3 +966,98 @@ func ecdsaSigLength(c *Ctx, r *Report, rule, fname, consequence string) {
 		r.undecided(rule, fname, c.pos(fn.Pos()), "no ecdsa.Verify call found")
 	}
 }
+
+// namesEscaped: a domain name held in a record is a string in which special and non-printable octets are escaped
+// only if it came from the wire decoder or the zone parser; names set by a program (and accepted by PackDomainName)
+// may hold raw octets. Every name field is therefore printed through sprintName, which brings both to the one
+// escaped spelling the parser reads back.
+func namesEscaped(c *Ctx, r *Report, rule, consequence string) {
+	r.rule(rule, 30, "every domain-name field a String method prints goes through sprintName (types without presentation format excepted)")
+	nameKinds := map[string]bool{"domain-name": true, "cdomain-name": true, "ipsechost": true, "amtrelayhost": true}
+	// no presentation format: String is a comment line (Appendix D)
+	noText := map[string]bool{"TSIG": true, "TKEY": true, "OPT": true, "ANY": true, "NULL": true, "NXNAME": true}
+	for _, T := range c.rrTypes() {
+		if noText[T.Name] {
+			continue
+		}
+		fn := c.ssaFunc(T.Name + ".String")
+		if fn == nil {
+			continue
+		}
+		isName := map[string]bool{}
+		for _, f := range T.Fields {
+			if nameKinds[dnsTagKind(f)] {
+				isName[f.Name] = true
+			}
+		}
+		if len(isName) == 0 {
+			continue
+		}
+		counter := map[string]int{}
+		for _, sub := range withAnon(fn) {
+			allInstrs(sub, func(in ssa.Instruction) {
+				ld, ok := in.(*ssa.UnOp)
+				if !ok || ld.Op != token.MUL {
+					return
+				}
+				fa, ok := ld.X.(*ssa.FieldAddr)
+				if !ok || !isName[fieldNameOf(fa)] {
+					return
+				}
+				if bt, ok := ld.Type().Underlying().(*types.Basic); !ok || bt.Info()&types.IsString == 0 {
+					return
+				}
+				r.fn(fnDisplay(sub))
+				field := fieldNameOf(fa)
+				counter[field]++
+				construct := fmt.Sprintf("%s.%s", T.Name, field)
+				if counter[field] > 1 {
+					construct = fmt.Sprintf("%s#%d", construct, counter[field])
+				}
+				var raw []string
+				var walk func(v ssa.Value, d int)
+				walk = func(v ssa.Value, d int) {
+					for _, ref := range *v.Referrers() {
+						switch t := ref.(type) {
+						case *ssa.Call:
+							if calleeNameSSA(&t.Call) == "sprintName" {
+								continue
+							}
+							raw = append(raw, fmt.Sprintf("%s: passed to %s", c.pos(t.Pos()), calleeNameSSA(&t.Call)))
+						case *ssa.BinOp:
+							if t.Op == token.ADD {
+								raw = append(raw, fmt.Sprintf("%s: concatenated as it is", c.pos(t.Pos())))
+							}
+						case *ssa.Phi:
+							if d < 3 {
+								walk(t, d+1)
+							}
+						case *ssa.Store:
+							// a local that is printed later
+							if al, ok := t.Addr.(*ssa.Alloc); ok && d < 3 {
+								for _, r2 := range *al.Referrers() {
+									if l2, ok := r2.(*ssa.UnOp); ok {
+										walk(l2, d+1)
+									}
+								}
+							}
+						case *ssa.Return:
+							raw = append(raw, fmt.Sprintf("%s: returned as it is", c.pos(t.Pos())))
+						}
+					}
+				}
+				walk(ld, 0)
+				r.check(len(raw) == 0, rule, construct, c.pos(ld.Pos()), "through sprintName", "%s.%s is printed without sprintName (%s): %s", T.Name, field, strings.Join(uniqStrings(raw), "; "), consequence)
+			})
+		}
+	}
+}
+
+// dnsTagKind: the wire kind named by a field's dns tag (the part before any ':' or ',' qualifier).
+func dnsTagKind(f wireField) string {
+	t := f.Tag
+	if i := strings.IndexAny(t, ":,"); i >= 0 {
+		t = t[:i]
+	}
+	return t
+}
